@@ -17,7 +17,7 @@ func init() {
 		Level: "exploration",
 		Rule: "bounded-exhaustive Muxer histories (every word up to length 5 in quick / 6 in thorough over {Add(auto), Add(a), Add(b), Remove(a), SetPCRPID(a), SetPCRPID(b), WriteTables, WriteData(a), WriteData(a,RAI)}) x " +
 			"retransmit periods {1,2,3}, plus random histories up to 200 operations x periods 1..50 incl. >32 content changes (version wrap) and failing emissions; the packet log is judged by a reference " +
-			"state machine written from the property statement (required emission points are a lower bound); plus long sessions (stage endurance: thousands of add/remove cycles with automatic PIDs, hundreds of emissions, 131 500 calls); distinct = hash(history word / output); non-trivial = ≥1 table emission and ≥1 WriteData",
+			"state machine written from the property statement (required emission points are a lower bound); plus long sessions (stage endurance: thousands of add/remove cycles with automatic PIDs, hundreds of emissions, 131 500 calls); distinct = hash(history word / output); non-trivial = ≥1 table emission and ≥1 WriteData; every PAT and PMT emitted is section 0 of 0 with current_next_indicator set",
 		Assumptions: []string{"extra table emissions are tolerated but must be current and version-consistent", "WriteData calls that fail are not counted towards the retransmit period",
 			"SetPCRPID counts as a change even when it sets the same value (the statement says 'was set')"},
 		Shards: 32,
@@ -159,6 +159,14 @@ func tablesOracle(c *mon.Ctx, prop, stage string, idx int64, hr *HistRun, timing
 			if len(pat.Programs) != 1 || pat.Programs[0].ProgramNumber != 1 || pat.Programs[0].ProgramMapID != 0x1000 {
 				bad("pat-content", fmt.Sprintf("call %d: PAT programs %+v, want program 1 -> 0x1000", k, pat.Programs))
 				return
+			}
+			// each table is one section: it says so itself (a receiver collects sections 0 .. last_section_number before it takes
+			// the table for current), whatever its size
+			for name, sec := range map[string]*astits.PSISection{"pat": e.pat, "pmt": e.pmt} {
+				if h := sec.Syntax.Header; h.SectionNumber != 0 || h.LastSectionNumber != 0 || !h.CurrentNextIndicator {
+					bad(name+"-section-numbering", fmt.Sprintf("call %d: section_number %d, last_section_number %d, current_next_indicator %v: the table is sent as the one section 0 of 0, current", k, h.SectionNumber, h.LastSectionNumber, h.CurrentNextIndicator))
+					return
+				}
 			}
 			if pmt.ProgramNumber != 1 {
 				bad("pmt-program-number", fmt.Sprintf("call %d: %d", k, pmt.ProgramNumber))
